@@ -206,15 +206,23 @@ End Exact.
 Theorem state_roundtrip : forall st : mc_state, mc_started st = true -> mc_load (mc_save st) = st.
 Proof. intros [T s l i t f] H; simpl in *; subst; reflexivity. Qed.
 
-(* if the option is removed when the level has been restored, a later quit
-   outside a Markov level and a later resume do not restore it again *)
-Theorem no_replay_when_cleared : forall cfg n s,
-  fst (sess_restore true (sess_quit (snd (sess_restore true cfg)) false n s)) = None.
-Proof. intros [[k|] o] n s; reflexivity. Qed.
+(* with the R7 repair (option removed unless the quit check fired inside the
+   restored level): once the restored level has run to its end -- also when the
+   quit flag was raised during its exhausting next_guess call -- a later save
+   and resume do not restore it again, whatever happens in that later session *)
+Theorem no_replay_when_cleared : forall cfg n s oe,
+  fst (sess_restore true (sess_quit (snd (sess_restore true cfg false)) false n s) oe) = None.
+Proof. intros [[k|] o] n s oe; reflexivity. Qed.
 
-(* as coded (never removed): the stale state is restored again *)
-Theorem stale_replay_when_not_cleared : forall n1 s1 n2 s2,
-  fst (sess_restore false (sess_quit (snd (sess_restore false (sess_quit sess_empty true n1 s1))) false n2 s2)) = Some s1.
+(* a second quit seen after a guess of the restored level: the next session
+   restores the NEW position *)
+Theorem requit_inside_restores_new : forall n1 s1 n s oe,
+  fst (sess_restore true (sess_quit (snd (sess_restore true (sess_quit sess_empty true n1 s1) true)) true n s) oe) = Some s.
+Proof. reflexivity. Qed.
+
+(* as first coded (never removed): the stale state is restored again *)
+Theorem stale_replay_when_not_cleared : forall n1 s1 n2 s2 oe oe',
+  fst (sess_restore false (sess_quit (snd (sess_restore false (sess_quit sess_empty true n1 s1) oe)) false n2 s2) oe') = Some s1.
 Proof. reflexivity. Qed.
 
 (* a quit seen inside the last pre-terminal is never saved *)
